@@ -397,6 +397,8 @@ def wap_autodetect_obligations(ctx, rep, rule="R02g"):
             if p.kind == "raise":
                 undetermined = True
                 continue
+            if "__rl" not in p.state.facts:
+                continue  # the path that reuses the table an earlier protocol object of this connection has read
             v = p.state.facts.get("self.httpheaders")
             if v is None or v.kind != "const" or not isinstance(v.value, dict):
                 undetermined = True
@@ -421,7 +423,8 @@ def wap_autodetect_obligations(ctx, rep, rule="R02g"):
             return None
 
         facts = {"self.requestparts[1]": Const("/docs/a.txt"), "self.httpheaders": Const(table)}
-        w2 = Walker(prog, ctx.resolver, call_value=cv2, assumptions=facts, sticky=set(facts), unroll=6, exact_loops=True)
+        w2 = Walker(prog, ctx.resolver, call_value=cv2, assumptions=facts, sticky=set(facts), unroll=6, exact_loops=True,
+                    inline=lambda fn, t, d: d < 3 and t.bound_cls is not None and fn.name not in ("headerslurp",))
         verdicts = set()
         for p in w2.run(can, wap, facts=dict(facts)):
             if p.kind == "raise":
